@@ -38,10 +38,8 @@ def getFinish (b : SecBuf) (index : Nat) (remaining : Nat) : Option Nat → Opti
   | none => none
   | some k => if k < remaining then some (slice (b.data.getD []) index k) else none
 
-/-- `get_string(index)`; returns the section state (`get_data()` may load lazily) and the
-    string behind the returned pointer (`none` = nullptr) -/
-def getString (b0 : SecBuf) (index : BitVec 32) : M (SecBuf × Option Bytes) :=
-  let b := b0.getData
+/-- `get_string(index)` after `const char* data = string_section->get_data()` -/
+def getStringCore (b : SecBuf) (index : BitVec 32) : M (SecBuf × Option Bytes) :=
   let sectionSize := str_get_section_size b.size
   if str_get_idx_ge_size index sectionSize || b.data.isNone then pure (b, none) else
   let remaining := str_get_remaining sectionSize index
@@ -49,6 +47,11 @@ def getString (b0 : SecBuf) (index : BitVec 32) : M (SecBuf × Option Bytes) :=
   match memchr "get_string/memchr" b.data index.toNat searchByte (str_get_memchr_n remaining).toNat with
   | .error e => .error e
   | .ok r => pure (b, getFinish b index.toNat remaining.toNat r)
+
+/-- `get_string(index)`; returns the section state (`get_data()` may load lazily) and the
+    string behind the returned pointer (`none` = nullptr) -/
+def getString (b : SecBuf) (index : BitVec 32) : M (SecBuf × Option Bytes) :=
+  getStringCore b.getData index
 
 /-- `add_string` from `size_t str_len = strlen(str)` on -/
 def addTail (b : SecBuf) (cur : BitVec 32) (cstr : Bytes) : M (SecBuf × BitVec 32) :=
